@@ -164,6 +164,19 @@ func ruleResolvedSnapshots(c *Ctx) {
 		}
 		return true
 	})
+	// the copy is taken synchronously, at the moment of the change: not inside the goroutine / a closure
+	sync := false
+	for _, st := range fi.Decl.Body.List {
+		if as, isAs := st.(*ast.AssignStmt); isAs && len(as.Rhs) == 1 {
+			if call, isCall := ast.Unparen(as.Rhs[0]).(*ast.CallExpr); isCall && calleeObj(info, call) == cr.Obj {
+				sync = true
+			}
+		}
+		if _, isGo := st.(*ast.GoStmt); isGo {
+			break
+		}
+	}
+	c.check(sync, rule, fi.Name, "snapshot is taken before the hook is dispatched", c.P.pos(fi.Decl.Pos()), "copyRIBs() at the top level, before the go statement", "the RIB copy is not taken synchronously before the hook goroutine starts: the snapshot would reflect later changes instead of the announced one")
 	c.Sites++
 	c.check(ok, rule, fi.Name, "hook receives a copy", c.P.pos(fi.Decl.Pos()), "resolvedEntryHook(copyRIBs(), optype, netinst, aft, key)", "the resolved-entry hook is not handed (the result of copyRIBs, the operation type, instance, table and key it was called with)")
 	// copyRIBs: every value stored in the returned map is a DeepCopy result
